@@ -1,30 +1,128 @@
-(* C10 BinPack (partial).
-   Proved: the reset state built from ANY instance is a feasible empty packing (C06_BinPack_init) with FIRST timestep; the verified
-   checker Packing_b (sound: C06_BinPack_checker) applied to the solution state of an instance says that all items lie in the
-   container and are pairwise disjoint; together with the decidable volume equation this is the exact tiling.  The ToyGenerator
-   literal instance is an exact tiling (vm_compute; the harness checks that the literal equals the real generator's data).
-   NOT proved in Coq: that the splitting procedure of RandomGenerator (modelled as [gen_spaces] over explicit draws and tied to
-   the code by correspondence) yields a tiling for ALL valid draws; the harness evaluates the verified checkers on every
-   generated instance instead (all keys sampled). *)
-Require Import JV.Base.Prelude JV.Base.JaxIndex JV.Base.Codec JV.Base.TimeStep JV.Model.BinPack JV.Proofs.BinPack_lib JV.Proofs.BinPack JV.Proofs.BinPack_obs.
-Theorem C10_BinPack_solution_feasible_partial c sps ms :
-  Packing_b (solution_state c sps ms) = true -> Packing (solution_state c sps ms).
-Proof. exact (Packing_b_sound (solution_state c sps ms)). Qed.
+(* C10 BinPack.  Generated instances are solvable as advertised.
+   RandomGenerator (generator.py: _split_container_into_items_spaces, _split_item_once, _split_item_multiple_times, modelled over
+   explicit draws as [gen_spaces]; the correspondence with the code is checked by the harness on every sampled key, the draws
+   being recovered from the implementation).  For EVERY container with non-zero volume, every max_num_items >= 1,
+   split_num_same_items >= 1, ANY number of loop iterations and ALL draws the code can make ([valid_draw]: a masked item with
+   positive length on the drawn axis, a split coordinate inside the item / a number of equal parts in [1, split_num_same_items]):
+     - the masked item spaces are an EXACT TILING of the container: each lies inside the container and is non-empty, any two are
+       disjoint, and their volumes add up to the container volume (C10_BinPack_random_generator_tiling); in particular the free
+       slot chosen by jnp.argmin(items_mask) is always a genuinely free one (slot 0 is never overwritten);
+     - generate_solution (every item placed at its generated position) satisfies the C06 Packing invariant, places every item
+       of the instance and has utilisation 1 (C10_BinPack_solution_feasible);
+     - the boolean checker tiling_b evaluated by the harness on each generated instance decides exactly this predicate
+       (C10_BinPack_tiling_checker) and is true on all valid draws (C10_BinPack_random_generator_checker).
+   ToyGenerator: the literal instance (the harness checks that the literal equals the real generator's data) is an exact tiling,
+   its solution is feasible and complete.  CSVGenerator has no shipped data file: it resets to the parsed user instance; the
+   flattening of the rows (quantity copies of each item, in file order: [csv_items], compared with the real parser by the harness)
+   has sum-of-quantities items, each one from a row (C10_BinPack_csv_items_count / _from_rows), and the reset state is a feasible
+   empty packing (C10_BinPack_csv_reset); the example instance of the class docstring is evaluated literally
+   (C10_BinPack_csv_docstring_instance; the harness checks that the literal is the docstring's and round-trips a generated instance).
+   The reset state built from ANY instance is a feasible empty packing with a FIRST timestep (C06_BinPack_init, C03).
+   Model limits (see Model/BinPack.v): coordinates below 2^24 (int32 / float32 round trips of the code are the identity there). *)
+Require Import JV.Base.Prelude JV.Base.JaxIndex JV.Base.Codec JV.Base.TimeStep JV.Model.BinPack JV.Proofs.BinPack_lib JV.Proofs.BinPack JV.Proofs.BinPack_obs JV.Proofs.BinPack_gen.
+
+Theorem C10_BinPack_random_generator_tiling n same c ds :
+  1 <= n -> 1 <= same -> sp_empty c = false ->
+  fst (draws_valid n same ds (repeat c (Z.to_nat n), true :: repeat false (Z.to_nat n - 1))) = true ->
+  let sps := fst (gen_spaces n same c ds) in let ms := snd (gen_spaces n same c ds) in
+  zlen sps = n /\ zlen sps = zlen ms /\
+  (forall i, znth false ms i = true -> sp_incl (znth sp0 sps i) c = true /\ sp_empty (znth sp0 sps i) = false) /\
+  (forall i j, i <> j -> znth false ms i = true -> znth false ms j = true ->
+               sp_intersect (znth sp0 sps i) (znth sp0 sps j) = false) /\
+  masked_vol sps ms = svol c.
+Proof. exact (random_generator_exact_tiling n same c ds). Qed.
+
+Theorem C10_BinPack_solution_feasible n same c ds :
+  1 <= n -> 1 <= same -> sp_empty c = false ->
+  fst (draws_valid n same ds (repeat c (Z.to_nat n), true :: repeat false (Z.to_nat n - 1))) = true ->
+  let s := solution_state c (fst (gen_spaces n same c ds)) (snd (gen_spaces n same c ds)) in
+  Packing s /\ items_placed s = items_mask s /\ pvol s = svol (container s).
+Proof. exact (random_generator_solution n same c ds). Qed.
+
+(* any instance whose item spaces tile the container (whatever produced it) has a feasible complete solution *)
+Theorem C10_BinPack_tiling_solution c sps ms :
+  exact_tiling c sps ms ->
+  Packing (solution_state c sps ms) /\
+  items_placed (solution_state c sps ms) = items_mask (solution_state c sps ms) /\
+  pvol (solution_state c sps ms) = svol (container (solution_state c sps ms)).
+Proof. exact (exact_tiling_solution c sps ms). Qed.
+
+Theorem C10_BinPack_tiling_checker c sps ms :
+  zlen sps = zlen ms -> (tiling_b c sps ms = true <-> exact_tiling c sps ms).
+Proof. exact (tiling_b_iff c sps ms). Qed.
+
+Theorem C10_BinPack_random_generator_checker n same c ds :
+  1 <= n -> 1 <= same -> sp_empty c = false ->
+  fst (draws_valid n same ds (repeat c (Z.to_nat n), true :: repeat false (Z.to_nat n - 1))) = true ->
+  tiling_b c (fst (gen_spaces n same c ds)) (snd (gen_spaces n same c ds)) = true.
+Proof. exact (random_generator_tiling_b n same c ds). Qed.
+
 Theorem C10_BinPack_solution_spaces c sps ms i :
   0 <= i < zlen sps -> ispace (solution_state c sps ms) i = znth sp0 sps i.
 Proof. exact (solution_spaces c sps ms i). Qed.
-Print Assumptions C10_BinPack_solution_feasible_partial.
+
+(* ToyGenerator *)
+Theorem C10_BinPack_toy_tiling : exact_tiling toy_container toy_spaces toy_mask.
+Proof. exact toy_exact_tiling. Qed.
+Theorem C10_BinPack_toy_solution :
+  Packing (solution_state toy_container toy_spaces toy_mask) /\
+  items_placed (solution_state toy_container toy_spaces toy_mask) = items_mask (solution_state toy_container toy_spaces toy_mask) /\
+  pvol (solution_state toy_container toy_spaces toy_mask) = svol toy_container.
+Proof. exact (exact_tiling_solution toy_container toy_spaces toy_mask toy_exact_tiling). Qed.
+
+(* CSVGenerator *)
+Theorem C10_BinPack_csv_items_count rows :
+  zlen (csv_items rows) = zsum (map (fun r : item * Z => Z.max 0 (snd r)) rows).
+Proof. exact (csv_items_length rows). Qed.
+Theorem C10_BinPack_csv_items_from_rows i rows : In i (csv_items rows) <-> exists q, In (i, q) rows /\ 0 < q.
+Proof. exact (csv_items_In i rows). Qed.
+Theorem C10_BinPack_csv_reset obs c max_ems rows : 0 < max_ems ->
+  Packing (fst (init obs c max_ems (csv_items rows) (repeat true (length (csv_items rows))))).
+Proof. exact (csv_reset_Packing obs c max_ems rows). Qed.
+
+Print Assumptions C10_BinPack_random_generator_tiling.
+Print Assumptions C10_BinPack_csv_reset.
+Print Assumptions C10_BinPack_solution_feasible.
+Print Assumptions C10_BinPack_tiling_checker.
+Print Assumptions C10_BinPack_random_generator_checker.
+Print Assumptions C10_BinPack_toy_solution.
+
 Example C10_BinPack_toy_exact_tiling :
   tiling_b toy_container toy_spaces toy_mask = true /\ Packing_b (solution_state toy_container toy_spaces toy_mask) = true
-  /\ masked_vol toy_spaces toy_mask = svol toy_container.
+  /\ masked_vol toy_spaces toy_mask = svol toy_container /\ svol toy_container = 30089620000 /\ count_true toy_mask = 20.
 Proof. vm_compute. repeat split; reflexivity. Qed.
 (* the splitting procedure on explicit draws: split the 8x4x2 container once along x at 5, then the first piece in 2 equal parts
-   along y: three items, an exact tiling *)
+   along y: three items, an exact tiling; the hypotheses of the theorems are met (all draws valid) and the checker is not
+   trivially true (two overlapping boxes are rejected) *)
 Example C10_BinPack_nonvacuous :
   let c := make_container 8 4 2 in
   let ds := [mkD AX 0 true 5; mkD AY 0 false 2] in
   gen_spaces 4 2 c ds = ([mkSp 0 5 0 2 0 2; mkSp 5 8 0 4 0 2; mkSp 0 5 2 4 0 2; mkSp 0 8 0 4 0 2], [true; true; true; false])
+  /\ sp_empty c = false
   /\ draws_valid 4 2 ds (repeat c 4, [true; false; false; false]) = (true, 2)
   /\ tiling_b c (fst (gen_spaces 4 2 c ds)) (snd (gen_spaces 4 2 c ds)) = true
   /\ tiling_b c [mkSp 0 5 0 2 0 2; mkSp 4 8 0 4 0 2] [true; true] = false.
+Proof. vm_compute. repeat split; reflexivity. Qed.
+(* an equal split with more parts than millimetres (length 2 in 5 parts) creates empty pieces: they are masked out again and the
+   remaining items still tile the container; an invalid draw (split coordinate outside the item) is rejected by valid_draw and
+   would break the tiling *)
+Example C10_BinPack_nonvacuous_empty_pieces :
+  let c := make_container 2 1 1 in
+  gen_spaces 8 5 c [mkD AX 0 false 5] =
+    ([mkSp 0 0 0 1 0 1; mkSp 0 0 0 1 0 1; mkSp 0 1 0 1 0 1; mkSp 1 1 0 1 0 1; mkSp 1 2 0 1 0 1; c; c; c],
+     [false; false; true; false; true; false; false; false])
+  /\ draws_valid 8 5 [mkD AX 0 false 5] (repeat c 8, true :: repeat false 7) = (true, 1)
+  /\ tiling_b c (fst (gen_spaces 8 5 c [mkD AX 0 false 5])) (snd (gen_spaces 8 5 c [mkD AX 0 false 5])) = true
+  /\ draws_valid 8 5 [mkD AX 0 true 3] (repeat c 8, true :: repeat false 7) = (false, 1)
+  /\ tiling_b c (fst (gen_spaces 8 5 c [mkD AX 0 true 3])) (snd (gen_spaces 8 5 c [mkD AX 0 true 3])) = false.
+Proof. vm_compute. repeat split; reflexivity. Qed.
+(* the instance of CSVGenerator's docstring in the default 20-ft container: 8 items, each fits the container on its own, total
+   volume 1585950000 <= container volume, every item is offered at reset (the whole first mask row is true) *)
+Example C10_BinPack_csv_docstring_instance :
+  let its := csv_items csv_doc_rows in
+  its = repeat (mkIt 1080 760 300) 5 ++ repeat (mkIt 1100 430 250) 3
+  /\ forallb (fun i => fits i (item_of toy_container)) its = true
+  /\ zsum (map ivol its) = 1585950000 /\ (zsum (map ivol its) <=? svol toy_container) = true
+  /\ action_mask (fst (init 1 toy_container 10 its (repeat true 8))) = [repeat true 8]
+  /\ Packing_b (fst (init 1 toy_container 10 its (repeat true 8))) = true.
 Proof. vm_compute. repeat split; reflexivity. Qed.
